@@ -7,6 +7,7 @@ from . import rules_algebra as RA
 from . import rules_kernels as RK
 from . import rules_effects as RF
 from . import rules_exc as RE
+from . import rules_parse as RPA
 from . import rules_poly as RP
 from . import rules_serial as RSER
 from . import rules_shapes as RS
@@ -57,6 +58,8 @@ def c06(ctx: Ctx) -> None:
     RA.rule_interfaces(ctx, RA.GENERIC, ["compose", "quotient", "merge"])
     RA.rule_refines_shape(ctx, RA.GENERIC, "refines", RA.EXPECTED_REFINES, True)
     RA.rule_rename(ctx, RA.GENERIC)
+    RS.rule_copy(ctx)
+    RA.rule_tl_operators(ctx)
 
 
 def c15(ctx: Ctx) -> None:
@@ -113,6 +116,14 @@ def c12(ctx: Ctx) -> None:
     RP.rule_polarity(ctx, P + "optimize", "maximize", True, "return")
     RP.rule_get_variable_bounds(ctx)
     RP.rule_lp_bounds(ctx)
+
+
+def c09(ctx: Ctx) -> None:
+    RPA.rule_data_kernels(ctx)
+    RPA.rule_translation(ctx)
+    RPA.rule_scaling_actions(ctx)
+    RPA.rule_parse_entry(ctx)
+    RF.rule_no_global_mutation(ctx)
 
 
 def c10(ctx: Ctx) -> None:
@@ -198,9 +209,165 @@ def run_property(ctx: Ctx) -> None:
     spec = PROPS[ctx.prop]
     spec["fn"](ctx)
 
-_tmp = {"C10": c10, "C01": c01, "C02": c02, "C03": c03, "C04": c04, "C06": c06, "C07": c07, "C08": c08, "C11": c11, "C12": c12, "C13": c13, "C14": c14, "C15": c15, "C16": c16, "C17": c17, "C19": c19}
-for _k, _f in _tmp.items():
-    PROPS[_k] = {"fn": _f, "level": "other", "explanation": "tbd", "assumptions": []}
+
+STATIC = "static analysis"
+
+
+def _reg(pid, fn, level, technique, explanation, assumptions, level_text=None, design_ref="DESIGN.md section 3"):
+    PROPS[pid] = {
+        "fn": fn,
+        "level": level,
+        "technique": technique,
+        "explanation": explanation,
+        "assumptions": assumptions,
+        "level_text": level_text or explanation,
+        "design_ref": design_ref,
+        "trusted": TRUSTED,
+    }
+
+
+NUMERIC_LIMIT = "numerical behaviour of scipy.linprog / HiGHS, sympy and float round-off is NOT decided: only the source-level clause named in the explanation is"
+
+_reg(
+    "C01", c01, "other",
+    "static analysis: AST abstract interpretation (provenance terms + Horn-closure judge, membership truth tables) of compose through the polyhedral entry points; kernel-law normal forms; path-sensitive shape rules of the dispatcher/_transform",
+    "Decides the structural clauses of composition soundness: (a) every returning path of PolyhedralIoContract.compose/compose_tactics (wrappers inlined into IoContract.compose_tactics) discharges "
+    "'A_res, contracts honoured |- A1, A2, G_res' for uninterpreted constraint predicates, every primitive outcome and every interface topology; (b) wrappers forward every argument to the same-named "
+    "parameter and default tactic orders name only existing tactics; (c) the dispatcher returns a tactic's result or an unchanged copy and _transform hands each term the context plus the *current* other "
+    "terms minus itself; (d) the term kernels the tactics are built from (multiply, add, remove, substitute, isolate) satisfy their algebraic laws on a generic symbolic term.",
+    ["the TermList primitives meet their documented specs - whether tactics 1, 3, 5 choose rows whose solution bounds the term in the right direction depends on LP optima / sympy solutions and is not decided", NUMERIC_LIMIT],
+)
+_reg(
+    "C02", c02, "other",
+    "static analysis: AST abstract interpretation (provenance terms + Horn-closure judge) of quotient through the polyhedral entry points; kernel laws; dispatcher/_transform shape rules",
+    "Decides the structural clauses of quotient soundness: every returning path of PolyhedralIoContract.quotient/quotient_tactics - all outcomes of refines (True/False) and of the three eliminations (ok / ValueError, "
+    "both except-branches) - discharges 'A, divisor honoured, quotient honoured |- A(C1), A(Q), G(C)'; wrappers forward arguments; dispatcher, _transform and term kernels as for C01.",
+    ["the TermList primitives meet their documented specs", NUMERIC_LIMIT],
+)
+_reg(
+    "C03", c03, "other",
+    "static analysis: path-sensitive constant propagation of linprog status, rational normal form of the optimum-vs-bound comparison, CFG-free truth tables of the emptiness pre-checks, sequent normalisation of the containment queries",
+    "Decides the direction and operands of every containment test: IoContract.refines/__le__/contains_environment/contains_implementation ask exactly the expected sequents and return their conjunction, with the "
+    "interface guard raising IncompatibleArgsError; PolyhedralTermList.refines decides the unconstrained cases in the right order and hands (self, other) matrices in order; verify_polytope_containment: "
+    "left-empty => True before right-empty => False, LP objective = negated tested row over the left rows with the row's own bound relaxed by a positive amount, status 2 => False, a row is accepted iff "
+    "-fun <= bound (+ tolerance, boundary included) and the comparison of the floating-point optimum carries a tolerance; is_polytope_empty status table; every linprog call has free variable bounds.",
+    ["whether a given tolerance is adequate for every input is not decided", NUMERIC_LIMIT],
+)
+_reg(
+    "C04", c04, "other",
+    "static analysis: path-sensitive partial evaluation of _transform_term/_transform/elim_* (with may-raise forks), sign/polarity normal forms of the LP objectives, kernel laws on generic symbolic terms, structural guards of the Kaykobad row selection",
+    "Decides the structural clauses of elimination: dispatcher discipline (argument order, first non-None result, ValueError = declined, unchanged copy as fallback), _transform's helper context and ValueError fallback, the relaxation tail that drops "
+    "every term still mentioning an eliminated variable, refine/relax flags of the two wrappers, every explicit failure inside a tactic is a ValueError, tactic 4 refuses to relax, TACTICS is total over the default orders, "
+    "polarity of tactic 2 and of the tactic-5 LP (objective sign = -1 iff refine; the optimum enters with the same sign), tactic 4 admits only rows whose coefficient has the term's sign, Kaykobad row selection skips the term itself / rows with other "
+    "eliminated variables and checks the sign condition on every eliminated variable, and the kernels isolate/substitute/multiply/add/remove satisfy their laws (isolate∘substitute round trip).",
+    ["the Kaykobad inequality itself, the active-set argument of tactic 5 and the adequacy of np.isclose(slack, 0) are numerical and not decided", NUMERIC_LIMIT],
+)
+PROPS["C05"]["technique"] = "static analysis: AST abstract interpretation with uninterpreted constraint predicates (provenance terms), membership truth tables over all topologies, Horn-closure entailment; every primitive outcome forked"
+PROPS["C05"]["level_text"] = PROPS["C05"]["explanation"]
+PROPS["C05"]["design_ref"] = "DESIGN.md sections 2.2, 2.3, 3 (C05)"
+PROPS["C05"]["trusted"] = TRUSTED
+_reg(
+    "C06", c06, "proof",
+    "static analysis: AST abstract interpretation with membership truth tables (complete decision procedure for list_union/list_diff/list_intersection expressions) and path conditions; existential guards decided by inhabited-cell enumeration",
+    "For every returning path of constructor, compose, quotient, merge, rename and copy (generic and polyhedral entry points): the result is built by the validating constructor; its input/output lists equal the prescribed formula on every "
+    "membership class allowed by the path condition (all topologies, any number of variables); every meaningless request (keep a non-output, shared outputs, constrained feedback, quotient output read by the divisor, foreign additional inputs, "
+    "ill-formed constructor arguments, refinement across interfaces, renaming into the other side) ends in IncompatibleArgsError on every path compatible with it and never in a result; lists.py helpers compute the set functions their names say, order-preserving.",
+    ["well-formedness of an operand is what the constructor established when it was built (the same constructor is analysed here)", "the constraint lists' own variable sets are arbitrary subsets subject to those invariants"],
+    design_ref="DESIGN.md sections 2.2, 3 (C06)",
+)
+_reg(
+    "C07", c07, "other",
+    "static analysis: path-sensitive constant propagation of linprog status through reduce_polytope, rational normal form of the drop condition, event-order pairing of the +1/-1 relaxation, wiring rules of simplify, Horn judge on the constructor",
+    "Decides: reduce_polytope removes a row only when the LP optimum of that row over the other rows (and the context) is within its bound (or the LP is unbounded), keeps it on solver trouble, raises ValueError exactly for status 2, "
+    "objective = negated row, the temporary +1 on the row's bound is undone before the bound is used again; simplify(context) reduces (self minus context terms) against the context in that order and maps surviving rows back with the same variable order; "
+    "termlist_to_polytope/polytope_to_termlist/term_to_polytope/polytope_to_term are index-faithful; the contract constructor simplifies guarantees against assumptions (never the converse) and stores equivalent assumptions.",
+    ["maximality ('nothing redundant left') and feasibility classification are LP behaviour and not decided", NUMERIC_LIMIT],
+)
+_reg(
+    "C08", c08, "proof",
+    "static analysis: AST abstract interpretation of merge + constructor with uninterpreted predicates, Horn-closure judge in both directions; operator summaries of TermList.__or__/__sub__/__and__ derived from source",
+    "merge: A_res |- A1, A2; A1, A2 |- A_res; A_res, G_res |- G1, G2; A1, A2, G1, G2 |- G_res on every returning path (the constructor's simplification step included), interface = unions by truth table, "
+    "type guard raises IncompatibleArgsError, TermList.__or__ is the union of copies; the obligations are symmetric in the operands, so either call order is covered.",
+    ["simplify meets its documented spec (equivalence in context, result a sub-list)"],
+    design_ref="DESIGN.md sections 2.3, 3 (C08)",
+)
+_reg(
+    "C09", c09, "other",
+    "static analysis: algebraic laws of the parser's data classes and of the relation translators, checked on generic symbolic records by a syntactic kernel interpreter (rational normal forms); path rule for error wrapping",
+    "Decides the arithmetic behind parsing, not the grammar's matching: negate/add/to_polyhedral_term of syntactic term lists, negate/to_term_list/is_positive of absolute terms (None = 1), _combine_optional_floats on its four cases, "
+    "_combine_or_append, expand = every +/- combination, '<=', '>=' (link by link) and '=' translated with the right direction and constant sign, negative absolute terms rejected with the convexity error before expansion (both relations), "
+    "the three scaling parse actions multiply every numeric field, parse failures are wrapped into PolyhedralSyntaxException with parse_all=True, module-level grammar state is never written.",
+    ["which strings the pyparsing grammar accepts and how tokens group (spacing, number spelling, chaining) is run-time matching and NOT decided - C09 is claimed for the arithmetic clause only"],
+)
+_reg(
+    "C10", c10, "other",
+    "static analysis: writer/reader key and tag tables extracted from the AST with def-use sources; path rules on the string printer",
+    "Decides table agreement and shape, not numeric round-trip equality: keys written by to_machine_dict = keys read by from_dict = keys required by the validators; each key carries the matching field (a/g, inputs/outputs); to_dict keys = from_strings parameters; "
+    "compound pair likewise; file type tags written = tags read, each read with the inverse of its writer; entry keys agree; the machine form applies float() only; _number_to_string uses one .4g spec; the printer consumes the head term and at most one partner, "
+    "folds a pair only if the terms are opposite and the constants stand in the relation the emitted form denotes, prints the head's left side and constant; to_str_list threads the returned rest.",
+    ["numeric equality after a round trip, folding of *nearly* opposite terms and acceptance of emitted strings by the parser are run-time behaviour and NOT decided - claimed for the structural clause only"],
+)
+_reg(
+    "C11", c11, "other",
+    "static analysis: kernel laws of evaluate/substitute on generic symbolic terms incl. the three boundary cases, path rule of contains_behavior with may-raise fork, linprog status table of is_polytope_empty",
+    "Decides: unassigned variables raise ValueError before evaluation; evaluate leaves 'rest <= c - a_x*val' and rejects a fully assigned term iff the residual constant is strictly negative (boundary satisfied, zero values included); "
+    "exactly evaluate's ValueError maps to False; is_polytope_empty: status 2 => True, 0/3 => False, otherwise ValueError, free variable bounds.",
+    ["LP feasibility answers on thin systems are not decided", NUMERIC_LIMIT],
+)
+_reg(
+    "C12", c12, "other",
+    "static analysis: polarity normal form of PolyhedralTermList.optimize, linprog status table, wiring rules of the contract-level wrappers",
+    "Decides: objective sign = -1 iff maximize and the optimum is returned with the same sign; status 3 => None, 0 => value, otherwise ValueError; the LP is over self's own matrix with free bounds; "
+    "PolyhedralIoContract.optimize optimises the parsed objective over assumptions | guarantees and forwards the direction; get_variable_bounds returns (minimum, maximum).",
+    ["the property text's own defect (HiGHS presolve reporting unbounded problems as infeasible) is solver behaviour; no source construct distinguishes it - NOT decided"],
+)
+_reg(
+    "C13", c13, "other",
+    "static analysis: whole-package interprocedural mutation-effect / alias / freshness analysis (origin sets by depth, bottom-up summaries to a fixpoint over a resolved call graph)",
+    "Decides for all functions of the package: no write reaches an object that is (a component of) a parameter or a module-level binding - directly or through a callee - except constructors on self, the documented in-place IoContract.simplify and parse "
+    "actions on their own parse payload (payload classes are parser-private); constructors store private copies; methods of the domain classes return objects created in the call (object and direct containers); clock readings only reach statistics. "
+    "With no write to operands or module state, a result depends only on its arguments, which makes the history of a session irrelevant.",
+    ["name resolution is flow-insensitive; receiver types come from annotations and local definitions", "sharing of immutable leaves (Var objects, numbers, strings) between result and operand is allowed"],
+    design_ref="DESIGN.md sections 2.4, 3 (C13)",
+)
+_reg(
+    "C14", c14, "other",
+    "static analysis: raise-class census, built-and-dropped exception lint, assert triage by interprocedural def-use taint (solver / file sources) against a reviewed table, dereference coverage of reader and validators, linprog status tables",
+    "Decides: every explicit raise names a documented class (ValueError family incl. IncompatibleArgsError, the syntax/convexity errors, ContractFormatError); no exception is constructed without being raised; no assert condition depends on solver output, sympy output or raw file "
+    "content (those are findings), every other assert is in the reviewed invariant table; a documented check turned into an assert is recognised against the reference decline table; the file reader checks every entry key before use and validates "
+    "every representation it dispatches on; validators require every key from_dict reads; the dispatcher absorbs exactly ValueError; solver statuses map to documented outcomes.",
+    ["exceptions raised inside numpy/scipy/sympy/pyparsing for exotic values (e.g. float(None)) are not modelled", "an assert that is neither tainted nor reviewed is reported as undecidable (exit 2), not as a violation"],
+    design_ref="DESIGN.md sections 2.5, 3 (C14)",
+)
+_reg(
+    "C15", c15, "other",
+    "static analysis: must-retain truth tables over term-membership classes along every compose/merge path (syntactic tier) and Horn-closure exactness derivation under the no-connection hypothesis",
+    "Decides a necessary condition of C15: a guarantee term present verbatim in an operand and touching no eliminated variable is still present in the result's guarantees or assumptions on every returning path, where 'removed because the same term is "
+    "in the simplification context' counts as a removal that must be covered by that context being part of the result; and with no connection the composition is exact (both directions) for uninterpreted predicates. The pinned tree violates this in "
+    "compose_tactics (mutual simplification context of g1/g2) - recorded as known finding D2.",
+    ["retention of scaled or mutually implied (non-verbatim) duplicates depends on LP simplification and is not decided"],
+)
+_reg(
+    "C16", c16, "other",
+    "static analysis: truth tables over singleton membership atoms for the 3x3(+same) source/target cases, provenance normal forms of the renamed lists, kernel law of PolyhedralTerm.rename_variable",
+    "Decides: for every role of source and target (input / output / absent, same variable or not) rename_variable returns the prescribed interface (replace / remove / unchanged) or raises IncompatibleArgsError for a clash, renames both assumptions and guarantees "
+    "where the source can occur, goes through the constructor; the term kernel moves the coefficient (adds when the target already occurs) on a fresh copy; absent source is a no-op.",
+    ["sequential application in rename_variables is covered by the purity analysis (C13) and the per-step rule"],
+)
+_reg(
+    "C17", c17, "other",
+    "static analysis: path enumeration (0/1/2 loop iterations) of the nested-list methods, reconstructing the quantifier each loop computes; wiring rules of merge / from_strings / constructor flags",
+    "Decides the quantifier shapes: contains_behavior = exists over alternatives (ValueError passed on), <= = for-all-left exists-right of the element <= in that direction, == = mutual <=, intersect = every pair's conjunction kept iff not empty, "
+    "constructor disjointness = every pair i<j, conjunction non-empty => ValueError (and only then), copies stored; compound merge intersects assumptions with and guarantees without the disjointness check and unions the interfaces.",
+    ["emptiness answers on touching alternatives come from the LP and are not decided", NUMERIC_LIMIT],
+)
+_reg(
+    "C19", c19, "other",
+    "static analysis: field tables from constructor stores compared with the fields read by __eq__/__hash__/copy; interpreter check of copy(); kernel law of PolyhedralTerm.copy",
+    "Decides: every __eq__ compares each state field of self with the same field of other (never with itself), by conjunction, behind the same type guard; __hash__ exists next to __eq__ and reads only compared state (never identity); "
+    "copy() returns the same interface and lists through the constructor, list copies copy every element, term copies do not share their dictionary; NestedTermList equality is mutual <=.",
+    ["0.0 / -0.0 hashing and ulp-level effects of re-simplification in copy() are not decided"],
+)
 
 NOT_APPLICABLE = {
     "C18": "plot vertices are produced at run time by Qhull (HalfspaceIntersection), a Chebyshev-centre LP and atan2 sorting; exactness, "
@@ -208,5 +375,3 @@ NOT_APPLICABLE = {
     "column swap, input guards) are a thin fringe whose correctness does not make the vertex set right, so a static pass would say nothing "
     "about the property (DESIGN.md section 4).",
 }
-for _p in ("C04", "C07", "C09", "C10", "C11", "C12", "C13", "C14", "C17", "C19"):
-    NOT_APPLICABLE.setdefault(_p, "check under construction in this session (design in DESIGN.md section 3); will be claimed once its rules run green on the pinned tree")
